@@ -401,7 +401,7 @@ def check_api_windows(tier, seed):
                                     lambda m: lits.setdefault(f"lit{len(lits)}", Fraction(float(m.group(1)))) and f"lit{len(lits) - 1}", g)
                         teff = tq
                         for rhs in reassign:
-                            teff = Fraction(ceval.value(ceval.parse_expr(rhs), ceval.Env(idents={"Tgas": teff})))
+                            teff = Fraction(ceval.value(ceval.parse_expr(rhs), ceval.Env(idents={"Tgas": teff}, funcs={"fmax": max, "fmin": min, "max": max, "min": min})))
                         got = True if not g else bool(ceval.value(ceval.parse_expr(gq), ceval.Env(idents={"Tgas": teff, **lits})))
                     except Exception as e:
                         viol.append({"property": "C06", "what": f"{label}: guard-invalid: k[{i}] guard {g!r}: {e}", "signature": f"C06:{label}:guard-invalid"})
